@@ -2,7 +2,7 @@
    files and followed by Print Assumptions; Examples pin the statements to concrete
    inputs and show that the hypotheses are satisfiable. *)
 From Common Require Import Prelude.
-From C15 Require Import Model Proofs ProofsCodec ProofsFixed ProofsInto.
+From C15 Require Import Model Proofs ProofsCodec ProofsFixed ProofsInto ProofsLife.
 Local Open Scope Z_scope.
 
 (* ================================================================= round trip *)
@@ -227,6 +227,60 @@ Example fixed_history_example :
   fbw_trace (fbw_init 4 238%N) [] ops = ({| f_bytes := [1; 2; 3; 6]%N; f_cur := 4 |}, [1; 2; 3; 6]%N) /\
   fbw_available (fbw_run (fbw_init 4 238%N) ops) = 0 /\
   fbw_view (fbw_run (fbw_init 4 238%N) ops) = Some [1; 2; 3; 6]%N.
+Proof.
+  split; [repeat constructor; vm_compute; try discriminate; reflexivity|].
+  vm_compute. repeat split; reflexivity.
+Qed.
+
+(* ================================================ lifetime of getWrittenView() results *)
+
+(* one step of any history (write, reserve, getWrittenView, destruction of the writer, a re-seated
+   buffer): the ownership invariant is kept - every view points into a live allocation - and every
+   view handed out before reads exactly what it read before *)
+Theorem view_step_stable : forall st op,
+  l_inv st -> lop_ok op ->
+  let st' := fst (l_step true st op) in
+  l_inv st' /\
+  (forall v, In v (l_views st) -> In v (l_views st') /\ l_read_view st' v = l_read_view st v).
+Proof. exact ProofsLife.l_step_views. Qed.
+Print Assumptions view_step_stable.
+
+(* view_alive -> buffer_alive: a view that exists never reads released storage *)
+Theorem view_reads_live_storage : forall st v, l_inv st -> In v (l_views st) ->
+  exists bs, l_read_view st v = Some bs /\ len bs = snd v.
+Proof. exact ProofsLife.l_inv_read. Qed.
+Print Assumptions view_reads_live_storage.
+
+(* view_outlives_writer: after ANY history ops1 on FixedBufferWriter(cap), v = getWrittenView() taken
+   at cursor cur, then ANY further history ops2 (incl. destroying the writer or re-seating its
+   buffer): v still reads exactly what getWrittenView described - the first cur bytes written *)
+Theorem view_outlives_writer : forall cap bg ops1 ops2 i cur bytes,
+  0 <= cap < 2 ^ 64 -> Forall lop_ok ops1 -> Forall lop_ok ops2 ->
+  let st1 := l_run true (l_init cap bg) ops1 in
+  l_wr st1 = Some (i, cur) -> l_heap st1 i = Some bytes ->
+  let st2 := l_run true (fst (l_step true st1 LView)) ops2 in
+  In (i, cur) (l_views st2) /\
+  l_read_view st2 (i, cur) = fbw_view {| f_bytes := bytes; f_cur := cur |} /\
+  exists bs, l_read_view st2 (i, cur) = Some bs /\ len bs = cur.
+Proof. exact ProofsLife.view_outlives_writer. Qed.
+Print Assumptions view_outlives_writer.
+
+(* a non-owning view (a bare pointer into the writer's storage) dangles once the writer is gone *)
+Theorem view_nonowning_refuted :
+  exists cap bg ops v,
+    Forall lop_ok ops /\ In v (l_views (l_run false (l_init cap bg) ops)) /\
+    l_read_view (l_run false (l_init cap bg) ops) v = None /\
+    l_read_view (l_run true (l_init cap bg) ops) v = Some [65%N].
+Proof. exact ProofsLife.view_nonowning_refuted. Qed.
+Print Assumptions view_nonowning_refuted.
+
+(* write "AB", take a view, re-seat the buffer, write "C", take a second view, destroy the writer:
+   the first view still reads "AB", the second "C" *)
+Example view_lifetime_example :
+  let ops := [LStep (FWrite (Some [65; 66]%N) 2); LView; LReseat 3 119%N; LStep (FWrite (Some [67%N]) 1); LView; LKill] in
+  let st := l_run true (l_init 2 238%N) ops in
+  Forall lop_ok ops /\ l_views st = [(0%nat, 2); (1%nat, 1)] /\ l_wr st = None /\
+  map (l_read_view st) (l_views st) = [Some [65; 66]%N; Some [67%N]].
 Proof.
   split; [repeat constructor; vm_compute; try discriminate; reflexivity|].
   vm_compute. repeat split; reflexivity.
